@@ -2,7 +2,7 @@
    probability_distribution (generic/_simpleerrormodel.py, _biasederrormodel.py,
    _sliceerrormodel.py) and of their constructor domains, with the C16 theorems.
    Q is used with its setoid equality ==. *)
-From Coq Require Import QArith Qabs Lqa List Bool.
+From Coq Require Import QArith Qabs Qreduction Lqa List Bool.
 Import ListNotations.
 Open Scope Q_scope.
 
@@ -196,3 +196,429 @@ Proof. intros Hb Hp. destruct a; cbn; unfold biased_hr, biased_lr; field; split;
 Theorem biased_half_is_depolarizing a p : deq (biased (1 # 2) a p) (depolarizing p).
 Proof. destruct a; unfold deq, biased, depolarizing, of_xyz, biased_lr, biased_hr; cbn; repeat split; field. Qed.
 
+(* --- biased Y-X, relative to a root s of the discriminant --- *)
+Lemma yx_disc_factor h p : yx_disc h p == (1 - p) * ((1 + h) * (1 + h) - (1 - h) * (1 - h) * p).
+Proof. unfold yx_disc. ring. Qed.
+Theorem yx_disc_nonneg h p : 0 <= h -> 0 <= p <= 1 -> 0 <= yx_disc h p.
+Proof. intros Hh [H0 H1]. rewrite yx_disc_factor. apply Qmult_le_0_compat; [lra|]. nra. Qed.
+Section YX.
+  Variables h p s : Q.
+  Hypothesis Hh : 0 < h.
+  Hypothesis Hp : 0 <= p <= 1.
+  Hypothesis Hs : 0 <= s.
+  Hypothesis Hroot : s * s == yx_disc h p.
+  Let rx := 1 / 2 * (1 + h + p - h * p - s).
+  Let ry := 1 / (2 * h) * (1 + h - p + h * p - s).
+  Lemma yx_rates_pos : yx_rate_x h p s == rx /\ yx_rate_y h p s == ry.
+  Proof. unfold yx_rate_x, yx_rate_y. destruct (Qeq_bool h 0) eqn:E; [apply Qeq_bool_eq in E; lra|]. split; reflexivity. Qed.
+  Lemma yx_ry_eq : 2 * h * ry == 1 + h - p + h * p - s.
+  Proof. unfold ry. field. lra. Qed.
+  Lemma yx_rx_eq : 2 * rx == 1 + h + p - h * p - s.
+  Proof. unfold rx. field. Qed.
+  Lemma yx_rx_bounds : 0 <= rx <= 1.
+  Proof.
+    pose proof yx_rx_eq as E. unfold yx_disc in Hroot. destruct Hp as [H0 H1]. split.
+    - assert (s <= 1 + h + p - h * p); [|lra]. assert (0 <= 1 + h + p - h * p) by nra. nra.
+    - assert ((h - 1) * (1 - p) <= s); [|lra].
+      destruct (Qlt_le_dec h 1) as [Hlt|Hge]; [nra|].
+      assert (0 <= (h - 1) * (1 - p)) by nra. nra.
+  Qed.
+  Lemma yx_ry_bounds : 0 <= ry <= 1.
+  Proof.
+    pose proof yx_ry_eq as E. unfold yx_disc in Hroot. destruct Hp as [H0 H1].
+    assert (L : 0 <= 2 * h * ry <= 2 * h).
+    { split.
+      - assert (s <= 1 + h - p + h * p); [|lra]. assert (0 <= 1 + h - p + h * p) by nra. nra.
+      - assert ((1 - h) * (1 - p) <= s); [|lra].
+        destruct (Qlt_le_dec 1 h) as [Hlt|Hge]; [nra|].
+        assert (0 <= (1 - h) * (1 - p)) by nra. nra. }
+    split; nra.
+  Qed.
+  Lemma yx_sum : rx * (1 - ry) + ry * (1 - rx) + rx * ry == p.
+  Proof.
+    pose proof yx_ry_eq as E1. pose proof yx_rx_eq as E2. unfold yx_disc in Hroot.
+    assert (G : 4 * h * (rx * (1 - ry) + ry * (1 - rx) + rx * ry) == 4 * h * p).
+    { setoid_replace (4 * h * (rx * (1 - ry) + ry * (1 - rx) + rx * ry))
+        with (2 * h * (2 * rx) + 2 * (2 * h * ry) - (2 * rx) * (2 * h * ry)) by ring.
+      rewrite E1, E2. 
+      setoid_replace (2 * h * (1 + h + p - h * p - s) + 2 * (1 + h - p + h * p - s) -
+         (1 + h + p - h * p - s) * (1 + h - p + h * p - s))
+        with (2 * h * (1 + h + p - h * p) + 2 * (1 + h - p + h * p) - (1 + h + p - h * p) * (1 + h - p + h * p)
+              + s * ((1 + h + p - h * p) + (1 + h - p + h * p) - 2 * h - 2) - s * s) by ring.
+      rewrite Hroot. ring. }
+    apply (Qmult_inj_l _ _ (4 * h)); [lra|exact G].
+  Qed.
+  Lemma yx_bias : ry * (1 - rx) == h * (rx * (1 - ry)).
+  Proof.
+    pose proof yx_ry_eq as E1. pose proof yx_rx_eq as E2. unfold yx_disc in Hroot.
+    assert (G : 4 * h * (ry * (1 - rx)) == 4 * h * (h * (rx * (1 - ry)))).
+    { setoid_replace (4 * h * (ry * (1 - rx))) with ((2 * h * ry) * (2 - 2 * rx)) by ring.
+      setoid_replace (4 * h * (h * (rx * (1 - ry)))) with (h * (2 * rx) * (2 * h - 2 * h * ry)) by ring.
+      rewrite E1, E2.
+      setoid_replace ((1 + h - p + h * p - s) * (2 - (1 + h + p - h * p - s)))
+        with ((1 + h - p + h * p) * (2 - (1 + h + p - h * p)) + s * ((1 + h - p + h * p) - (2 - (1 + h + p - h * p))) - s * s) by ring.
+      setoid_replace (h * (1 + h + p - h * p - s) * (2 * h - (1 + h - p + h * p - s)))
+        with (h * (1 + h + p - h * p) * (2 * h - (1 + h - p + h * p)) + s * (h * (1 + h + p - h * p) - h * (2 * h - (1 + h - p + h * p))) - h * (s * s)) by ring.
+      rewrite Hroot. ring. }
+    apply (Qmult_inj_l _ _ (4 * h)); [lra|exact G].
+  Qed.
+End YX.
+
+(* the documented system, for a positive bias *)
+Theorem yx_system h p s : 0 < h -> 0 <= p <= 1 -> 0 <= s -> s * s == yx_disc h p ->
+  let rx := yx_rate_x h p s in let ry := yx_rate_y h p s in let d := biased_yx h p s in
+  0 <= rx <= 1 /\ 0 <= ry <= 1 /\
+  dX d == rx * (1 - ry) /\ dY d == ry * (1 - rx) /\ dZ d == rx * ry /\
+  dY d == h * dX d /\ dX d + dY d + dZ d == p /\ dI d == 1 - p /\ simplex d.
+Proof.
+  intros Hh Hp Hs Hroot. cbv zeta.
+  pose proof (yx_rx_bounds h p s Hh Hp Hs Hroot) as Bx. pose proof (yx_ry_bounds h p s Hh Hp Hs Hroot) as By.
+  pose proof (yx_sum h p s Hh Hroot) as S. pose proof (yx_bias h p s Hh Hroot) as Bi.
+  assert (E : Qeq_bool h 0 = false).
+  { destruct (Qeq_bool h 0) eqn:E; auto. apply Qeq_bool_eq in E. lra. }
+  unfold biased_yx, yx_of_rates, yx_rate_x, yx_rate_y. rewrite E. cbn [dI dX dY dZ of_xyz].
+  set (rx := 1 / 2 * (1 + h + p - h * p - s)) in *. set (ry := 1 / (2 * h) * (1 + h - p + h * p - s)) in *.
+  assert (Px : 0 <= rx * (1 - ry)) by (apply Qmult_le_0_compat; lra).
+  assert (Py : 0 <= ry * (1 - rx)) by (apply Qmult_le_0_compat; lra).
+  assert (Pz : 0 <= rx * ry) by (apply Qmult_le_0_compat; lra).
+  repeat split; try reflexivity; try tauto; try lra.
+  - cbn [dI of_xyz]. lra.
+  - apply of_xyz_total.
+Qed.
+(* zero bias: pure X noise (no root involved) *)
+Theorem yx_zero_bias_pure_x p s : deq (biased_yx 0 p s) (bit_flip p).
+Proof. unfold deq, biased_yx, yx_of_rates, yx_rate_x, yx_rate_y, bit_flip, of_xyz; cbn. repeat split; ring. Qed.
+
+(* --- centre-slice --- *)
+Definition on_simplex (v : vec3) : Prop := let '(x, y, z) := v in 0 <= x /\ 0 <= y /\ 0 <= z /\ x + y + z == 1.
+Definition has_zero (v : vec3) : Prop := let '(x, y, z) := v in x == 0 \/ y == 0 \/ z == 0.
+Definition on_boundary (v : vec3) : Prop := on_simplex v /\ has_zero v.
+(* the documented admissible limits: non-negative entries, one or two of them zero *)
+Definition adm_lim (v : vec3) : Prop :=
+  let '(x, y, z) := v in 0 <= x /\ 0 <= y /\ 0 <= z /\ 0 < x + y + z /\ (x == 0 \/ y == 0 \/ z == 0).
+
+Lemma veq_refl v : veq v v.
+Proof. destruct v as [[x y] z]. cbn. repeat split; reflexivity. Qed.
+Lemma veq_trans u v w : veq u v -> veq v w -> veq u w.
+Proof. destruct u as [[a b] c], v as [[x y] z], w as [[r s] t]. cbn. intros (A & B & C) (D & E & F).
+  repeat split; etransitivity; eauto. Qed.
+Lemma on_boundary_veq u v : veq u v -> on_boundary u -> on_boundary v.
+Proof. destruct u as [[a b] c], v as [[x y] z]. unfold on_boundary, on_simplex, has_zero. cbn. intros (A & B & C) ((P1 & P2 & P3 & P4) & Zr).
+  repeat split; lra. Qed.
+
+Lemma normalize_id x y z : 0 <= x -> 0 <= y -> 0 <= z -> x + y + z == 1 -> veq (normalize (x, y, z)) (x, y, z).
+Proof.
+  intros Hx Hy Hz Hs. unfold normalize, norm1.
+  assert (Hn : Qabs x + Qabs y + Qabs z == 1).
+  { rewrite (Qabs_pos x), (Qabs_pos y), (Qabs_pos z) by assumption. exact Hs. }
+  cbn. rewrite Hn. repeat split; field.
+Qed.
+Lemma normalize_adm x y z : adm_lim (x, y, z) ->
+  on_boundary (normalize (x, y, z)) /\ veq (vscale (x + y + z) (normalize (x, y, z))) (x, y, z).
+Proof.
+  intros (Hx & Hy & Hz & Hs & Zr). unfold normalize, norm1.
+  assert (Hn : Qabs x + Qabs y + Qabs z == x + y + z).
+  { rewrite (Qabs_pos x), (Qabs_pos y), (Qabs_pos z) by assumption. reflexivity. }
+  unfold on_boundary, on_simplex, has_zero. cbn. rewrite Hn.
+  set (n := x + y + z) in *. assert (Hi : 0 < / n) by (apply Qinv_lt_0_compat; auto).
+  unfold Qdiv. repeat split.
+  - apply Qmult_le_0_compat; lra.
+  - apply Qmult_le_0_compat; lra.
+  - apply Qmult_le_0_compat; lra.
+  - unfold n. field. fold n. lra.
+  - destruct Zr as [Zr|[Zr|Zr]]; [left|right;left|right;right]; rewrite Zr; ring.
+  - field. lra.
+  - field. lra.
+  - field. lra.
+Qed.
+
+(* the second intersection of the line through L and the centre with the triangle's boundary *)
+Definition beyond_centre (L N : vec3) : Prop :=
+  exists t, 0 < t /\ veq N (vadd centre (vscale t (vsub centre L))).
+
+Lemma neg_finish (L V V' : vec3) : veq V V' -> on_boundary V' -> beyond_centre L V' ->
+  on_boundary (normalize V) /\ beyond_centre L (normalize V).
+Proof.
+  destruct V as [[x y] z], V' as [[x' y'] z']. intros (E1 & E2 & E3) [(Hx & Hy & Hz & Hs) Zr] (t & Ht & Hc).
+  assert (Px : 0 <= x) by lra. assert (Py : 0 <= y) by lra. assert (Pz : 0 <= z) by lra.
+  assert (Ps : x + y + z == 1) by lra.
+  pose proof (normalize_id x y z Px Py Pz Ps) as E.
+  destruct (normalize (x, y, z)) as [[x2 y2] z2] eqn:EN. cbn in E. destruct E as (A & B & C).
+  split.
+  - unfold on_boundary, on_simplex, has_zero in *. repeat split; lra.
+  - exists t. split; auto. destruct L as [[a b] c]. cbn in *. destruct Hc as (D & F & G). repeat split; lra.
+Qed.
+
+(* the unnormalised intersection point in each of the six cases of the search loop: with m the larger
+   non-zero coordinate of L and d = 1/(3m-1) its components are a permutation of (m d, 0, (2m-1) d) *)
+Ltac lp_solve Z H := cbn; repeat split; rewrite ?Z, ?H; field; lra.
+Lemma lp_a0_Y a b c : a == 0 -> c == 1 - b -> 1 # 2 <= b ->
+  veq (line_plane vY vO (vsub centre (a, b, c)) (a, b, c)) (b * / (3 * b - 1), 0, (2 * b - 1) * / (3 * b - 1)).
+Proof. intros Z H Hm. lp_solve Z H. Qed.
+Lemma lp_a0_Z a b c : a == 0 -> b == 1 - c -> 1 # 2 <= c ->
+  veq (line_plane vZ vO (vsub centre (a, b, c)) (a, b, c)) (c * / (3 * c - 1), (2 * c - 1) * / (3 * c - 1), 0).
+Proof. intros Z H Hm. lp_solve Z H. Qed.
+Lemma lp_b0_Z a b c : b == 0 -> a == 1 - c -> 1 # 2 <= c ->
+  veq (line_plane vZ vO (vsub centre (a, b, c)) (a, b, c)) ((2 * c - 1) * / (3 * c - 1), c * / (3 * c - 1), 0).
+Proof. intros Z H Hm. lp_solve Z H. Qed.
+Lemma lp_b0_X a b c : b == 0 -> c == 1 - a -> 1 # 2 <= a ->
+  veq (line_plane vX vO (vsub centre (a, b, c)) (a, b, c)) (0, a * / (3 * a - 1), (2 * a - 1) * / (3 * a - 1)).
+Proof. intros Z H Hm. lp_solve Z H. Qed.
+Lemma lp_c0_X a b c : c == 0 -> b == 1 - a -> 1 # 2 <= a ->
+  veq (line_plane vX vO (vsub centre (a, b, c)) (a, b, c)) (0, (2 * a - 1) * / (3 * a - 1), a * / (3 * a - 1)).
+Proof. intros Z H Hm. lp_solve Z H. Qed.
+Lemma lp_c0_Y a b c : c == 0 -> a == 1 - b -> 1 # 2 <= b ->
+  veq (line_plane vY vO (vsub centre (a, b, c)) (a, b, c)) ((2 * b - 1) * / (3 * b - 1), 0, b * / (3 * b - 1)).
+Proof. intros Z H Hm. lp_solve Z H. Qed.
+
+Ltac neg_case lem Z H Hm m :=
+  eexists; split; [reflexivity|];
+  assert (Hdp : 0 < / (3 * m - 1)) by (apply Qinv_lt_0_compat; lra);
+  assert (Hd : / (3 * m - 1) * (3 * m - 1) == 1) by (field; lra);
+  apply (neg_finish _ _ _ (lem _ _ _ Z H Hm));
+  [ unfold on_boundary, on_simplex, has_zero; set (d := / (3 * m - 1)) in *; repeat split; nra
+  | exists (/ (3 * m - 1)); split; [exact Hdp|]; set (d := / (3 * m - 1)) in *; cbn; repeat split; nra ].
+
+Theorem neg_lim_spec a b c : on_boundary (a, b, c) ->
+  exists N, neg_lim (a, b, c) = Some N /\ on_boundary N /\ beyond_centre (a, b, c) N.
+Proof.
+  intros [(Ha & Hb & Hc & Hs) Zr]. unfold neg_lim, neg_lim_try.
+  destruct (Qeq_bool (vdot (a, b, c) vX) 0) eqn:EX.
+  { apply Qeq_bool_eq in EX. cbn in EX. assert (Za : a == 0) by lra. clear EX Zr.
+    destruct (Qle_bool (dist2 vY (a, b, c)) (dist2 vZ (a, b, c))) eqn:EL.
+    - apply Qle_bool_imp_le in EL. cbn in EL. assert (Hm : 1 # 2 <= b) by lra. clear EL.
+      assert (H : c == 1 - b) by lra. neg_case lp_a0_Y Za H Hm b.
+    - assert (EL' : ~ dist2 vY (a, b, c) <= dist2 vZ (a, b, c)) by (intros K; apply Qle_bool_iff in K; congruence).
+      cbn in EL'. assert (Hm : 1 # 2 <= c) by lra. clear EL EL'.
+      assert (H : b == 1 - c) by lra. neg_case lp_a0_Z Za H Hm c. }
+  assert (Na : ~ a == 0). { intros K. apply Qeq_bool_neq in EX. apply EX. cbn. lra. } clear EX.
+  destruct (Qeq_bool (vdot (a, b, c) vY) 0) eqn:EY.
+  { apply Qeq_bool_eq in EY. cbn in EY. assert (Zb : b == 0) by lra. clear EY Zr.
+    destruct (Qle_bool (dist2 vZ (a, b, c)) (dist2 vX (a, b, c))) eqn:EL.
+    - apply Qle_bool_imp_le in EL. cbn in EL. assert (Hm : 1 # 2 <= c) by lra. clear EL.
+      assert (H : a == 1 - c) by lra. neg_case lp_b0_Z Zb H Hm c.
+    - assert (EL' : ~ dist2 vZ (a, b, c) <= dist2 vX (a, b, c)) by (intros K; apply Qle_bool_iff in K; congruence).
+      cbn in EL'. assert (Hm : 1 # 2 <= a) by lra. clear EL EL'.
+      assert (H : c == 1 - a) by lra. neg_case lp_b0_X Zb H Hm a. }
+  assert (Nb : ~ b == 0). { intros K. apply Qeq_bool_neq in EY. apply EY. cbn. lra. } clear EY.
+  assert (Zc : c == 0) by (destruct Zr as [K|[K|K]]; [contradiction|contradiction|exact K]). clear Zr.
+  assert (EZ : Qeq_bool (vdot (a, b, c) vZ) 0 = true) by (apply Qeq_eq_bool; cbn; lra). rewrite EZ.
+  destruct (Qle_bool (dist2 vX (a, b, c)) (dist2 vY (a, b, c))) eqn:EL.
+  - apply Qle_bool_imp_le in EL. cbn in EL. assert (Hm : 1 # 2 <= a) by lra. clear EL.
+    assert (H : b == 1 - a) by lra. neg_case lp_c0_X Zc H Hm a.
+  - assert (EL' : ~ dist2 vX (a, b, c) <= dist2 vY (a, b, c)) by (intros K; apply Qle_bool_iff in K; congruence).
+    cbn in EL'. assert (Hm : 1 # 2 <= b) by lra. clear EL EL'.
+    assert (H : a == 1 - b) by lra. neg_case lp_c0_Y Zc H Hm b.
+Qed.
+
+Lemma on_simplex_centre : on_simplex centre.
+Proof. cbn. repeat split; lra. Qed.
+Lemma convex_simplex t u v : 0 <= t <= 1 -> on_simplex u -> on_simplex v ->
+  on_simplex (vadd (vscale t u) (vscale (1 - t) v)).
+Proof.
+  destruct u as [[a b] c], v as [[x y] z]. cbn. intros [T0 T1] (A & B & C & S1) (X & Y & Z & S2).
+  repeat split; try (apply (Qle_trans _ (0 + 0)); [lra|apply Qplus_le_compat; apply Qmult_le_0_compat; lra]).
+  setoid_replace (t * a + (1 - t) * x + (t * b + (1 - t) * y) + (t * c + (1 - t) * z))
+    with (t * (a + b + c) + (1 - t) * (x + y + z)) by ring. rewrite S1, S2. ring.
+Qed.
+
+(* the ratio lies on the segment centre -> lim (pos >= 0) or centre -> neg_lim (pos < 0) at parameter |pos|,
+   neg_lim being the second intersection of the line lim-centre with the boundary of the triangle *)
+Theorem ratio_spec L pos : on_boundary L -> -(1) <= pos <= 1 ->
+  exists r, ratio L pos = Some r /\ on_simplex r /\
+    (0 <= pos -> veq r (vadd centre (vscale pos (vsub L centre)))) /\
+    (pos < 0 -> exists N, neg_lim L = Some N /\ on_boundary N /\ beyond_centre L N /\
+                          veq r (vadd centre (vscale (- pos) (vsub N centre)))).
+Proof.
+  intros HL [P0 P1]. unfold ratio. destruct (Qle_bool 0 pos) eqn:E.
+  - apply Qle_bool_imp_le in E. eexists. split; [reflexivity|].
+    pose proof (Qabs_pos pos E) as Hq. set (q := Qabs pos) in *. split; [|split].
+    + apply convex_simplex; [lra|apply HL|apply on_simplex_centre].
+    + intros _. destruct L as [[a b] c]. cbn. repeat split; rewrite Hq; ring.
+    + intros K. lra.
+  - assert (Hneg : pos < 0). { apply Qnot_le_lt. intros K. apply Qle_bool_iff in K. congruence. }
+    destruct L as [[a b] c]. destruct (neg_lim_spec a b c HL) as (N & EN & BN & CN). rewrite EN.
+    eexists. split; [reflexivity|].
+    assert (Hq : Qabs pos == - pos) by (apply Qabs_neg; lra). set (q := Qabs pos) in *. split; [|split].
+    + apply convex_simplex; [lra|apply BN|apply on_simplex_centre].
+    + intros K. lra.
+    + intros _. exists N. repeat split; auto; try apply BN. destruct N as [[x y] z]. cbn. repeat split; rewrite Hq; ring.
+Qed.
+
+Theorem slice_spec lim pos p : adm_lim lim -> -(1) <= pos <= 1 -> 0 <= p <= 1 ->
+  exists d r, slice lim pos p = Some d /\ ratio (normalize lim) pos = Some r /\ on_simplex r /\
+    simplex d /\ dI d == 1 - p /\
+    (let '(rx, ry, rz) := r in dX d == rx * p /\ dY d == ry * p /\ dZ d == rz * p).
+Proof.
+  destruct lim as [[l1 l2] l3]. intros HA HP [H0 H1]. destruct (normalize_adm l1 l2 l3 HA) as [HB _].
+  destruct (ratio_spec _ pos HB HP) as (r & Er & Sr & _). unfold slice. rewrite Er.
+  destruct r as [[rx ry] rz]. cbn in Sr. destruct Sr as (X & Y & Z & S).
+  eexists. exists (rx, ry, rz). split; [reflexivity|]. split; [reflexivity|]. split; [cbn; auto|].
+  assert (Es : rx * p + ry * p + rz * p == p). { setoid_replace (rx * p + ry * p + rz * p) with ((rx + ry + rz) * p) by ring. rewrite S. ring. }
+  split; [|split].
+  - apply of_xyz_simplex; try (apply Qmult_le_0_compat; lra). lra.
+  - cbn. lra.
+  - cbn. repeat split; reflexivity.
+Qed.
+
+(* special cases *)
+Theorem slice_pos0_is_depolarizing lim p : exists d, slice lim 0 p = Some d /\ deq d (depolarizing p).
+Proof.
+  unfold slice, ratio. change (Qle_bool 0 0) with true. cbv iota. change (Qabs 0) with 0.
+  destruct (normalize lim) as [[a b] c]. cbn. eexists. split; [reflexivity|].
+  unfold deq, depolarizing, of_xyz; cbn. repeat split; field.
+Qed.
+Theorem slice_unit_lim_x c p : 0 < c -> exists d, slice (c, 0, 0) 1 p = Some d /\ deq d (bit_flip p).
+Proof.
+  intros Hc. assert (Hn : norm1 (c, 0, 0) == c).
+  { unfold norm1. change (Qabs 0) with 0. rewrite (Qabs_pos c) by lra. ring. }
+  unfold slice, ratio, normalize. remember (norm1 (c, 0, 0)) as n eqn:En. clear En.
+  change (Qle_bool 0 1) with true. cbv iota. change (Qabs 1) with 1. cbn. eexists. split; [reflexivity|].
+  unfold deq, bit_flip, of_xyz; cbn. repeat split; rewrite ?Hn; field; lra.
+Qed.
+Theorem slice_unit_lim_y c p : 0 < c -> exists d, slice (0, c, 0) 1 p = Some d /\ deq d (bit_phase_flip p).
+Proof.
+  intros Hc. assert (Hn : norm1 (0, c, 0) == c).
+  { unfold norm1. change (Qabs 0) with 0. rewrite (Qabs_pos c) by lra. ring. }
+  unfold slice, ratio, normalize. remember (norm1 (0, c, 0)) as n eqn:En. clear En.
+  change (Qle_bool 0 1) with true. cbv iota. change (Qabs 1) with 1. cbn. eexists. split; [reflexivity|].
+  unfold deq, bit_phase_flip, of_xyz; cbn. repeat split; rewrite ?Hn; field; lra.
+Qed.
+Theorem slice_unit_lim_z c p : 0 < c -> exists d, slice (0, 0, c) 1 p = Some d /\ deq d (phase_flip p).
+Proof.
+  intros Hc. assert (Hn : norm1 (0, 0, c) == c).
+  { unfold norm1. change (Qabs 0) with 0. rewrite (Qabs_pos c) by lra. ring. }
+  unfold slice, ratio, normalize. remember (norm1 (0, 0, c)) as n eqn:En. clear En.
+  change (Qle_bool 0 1) with true. cbv iota. change (Qabs 1) with 1. cbn. eexists. split; [reflexivity|].
+  unfold deq, phase_flip, of_xyz; cbn. repeat split; rewrite ?Hn; field; lra.
+Qed.
+
+(* --- constructor domains --- *)
+Lemma Qlt_bool_iff x y : Qlt_bool x y = true <-> x < y.
+Proof.
+  unfold Qlt_bool. destruct (Qle_bool y x) eqn:E; cbn; split; intros H; try discriminate; auto.
+  - apply Qle_bool_imp_le in E. lra.
+  - apply Qnot_le_lt. intros K. apply Qle_bool_iff in K. congruence.
+Qed.
+Theorem biased_ctor_accept b a :
+  biased_ctor b a = Accept <-> exists q ax, b = PQ q /\ 0 < q /\ axis_of_arg a = Some ax.
+Proof.
+  unfold biased_ctor. split.
+  - destruct b as [q| |n|]; try discriminate. destruct (Qlt_bool 0 q) eqn:E; [|discriminate].
+    destruct (axis_of_arg a) as [ax|] eqn:EA; [|discriminate]. intros _. exists q, ax. repeat split; auto. now apply Qlt_bool_iff.
+  - intros (q & ax & -> & Hq & ->). apply Qlt_bool_iff in Hq. now rewrite Hq.
+Qed.
+Theorem axis_of_arg_spec a ax : axis_of_arg a = Some ax <->
+  exists c, a = AxStr [c] /\ match ax with AX => c = 88 \/ c = 120 | AY => c = 89 \/ c = 121 | AZ => c = 90 \/ c = 122 end%nat.
+Proof.
+  split.
+  - destruct a as [[|c [|c' l]]|]; try discriminate. cbn.
+    destruct (Nat.eqb c 88) eqn:E1; [apply Nat.eqb_eq in E1; intros [= <-]; exists c; auto|].
+    destruct (Nat.eqb c 120) eqn:E2; [apply Nat.eqb_eq in E2; intros [= <-]; exists c; auto|].
+    destruct (Nat.eqb c 89) eqn:E3; [apply Nat.eqb_eq in E3; intros [= <-]; exists c; auto|].
+    destruct (Nat.eqb c 121) eqn:E4; [apply Nat.eqb_eq in E4; intros [= <-]; exists c; auto|].
+    destruct (Nat.eqb c 90) eqn:E5; [apply Nat.eqb_eq in E5; intros [= <-]; exists c; auto|].
+    destruct (Nat.eqb c 122) eqn:E6; [apply Nat.eqb_eq in E6; intros [= <-]; exists c; auto|]. discriminate.
+  - intros (c & -> & H). destruct ax; destruct H as [-> | ->]; reflexivity.
+Qed.
+Theorem yx_ctor_accept b : yx_ctor b = Accept <-> exists q, b = PQ q /\ 0 <= q.
+Proof.
+  unfold yx_ctor. split.
+  - destruct b as [q| |n|]; try discriminate. destruct (Qle_bool 0 q) eqn:E; [|discriminate].
+    intros _. exists q. split; auto. now apply Qle_bool_imp_le.
+  - intros (q & -> & Hq). apply Qle_bool_iff in Hq. now rewrite Hq.
+Qed.
+Lemma pos_ctor_accept pos : pos_ctor pos = Accept <-> exists q, pos = PQ q /\ -(1) <= q <= 1.
+Proof.
+  unfold pos_ctor. split.
+  - destruct pos as [q| |n|]; try discriminate. destruct (Qle_bool (-(1)) q) eqn:E1; [|discriminate].
+    destruct (Qle_bool q 1) eqn:E2; [|discriminate]. intros _. exists q. split; auto.
+    split; now apply Qle_bool_imp_le.
+  - intros (q & -> & H1 & H2). apply Qle_bool_iff in H1, H2. now rewrite H1, H2.
+Qed.
+Lemma is_nonneg_num_spec x : is_nonneg_num x = true <-> exists q, x = PQ q /\ 0 <= q.
+Proof.
+  split.
+  - destruct x as [q| |n|]; try discriminate. cbn. intros H. exists q. split; auto. now apply Qle_bool_imp_le.
+  - intros (q & -> & H). cbn. now apply Qle_bool_iff.
+Qed.
+Theorem slice_ctor_accept lim pos :
+  slice_ctor lim pos = Accept <->
+  exists x y z q, lim = LimSeq [PQ x; PQ y; PQ z] /\ adm_lim (x, y, z) /\ pos = PQ q /\ -(1) <= q <= 1.
+Proof.
+  unfold slice_ctor. split.
+  - destruct lim as [l|]; [|discriminate].
+    destruct l as [|u [|v [|w [|t l]]]]; try discriminate.
+    cbn [length Nat.eqb andb forallb].
+    destruct (is_nonneg_num u) eqn:Eu; [|rewrite andb_false_r; discriminate].
+    destruct (is_nonneg_num v) eqn:Ev; [|rewrite andb_false_r; discriminate].
+    destruct (is_nonneg_num w) eqn:Ew; [|rewrite andb_false_r; discriminate].
+    apply is_nonneg_num_spec in Eu, Ev, Ew. destruct Eu as (x & -> & Hx), Ev as (y & -> & Hy), Ew as (z & -> & Hz).
+    unfold count_nonzero. cbn [filter is_zero_num].
+    destruct (Qeq_bool x 0) eqn:Ex, (Qeq_bool y 0) eqn:Ey, (Qeq_bool z 0) eqn:Ez; cbn; try discriminate;
+      intros H; apply pos_ctor_accept in H; destruct H as (q & -> & Hq); exists x, y, z, q;
+      repeat match goal with H : Qeq_bool _ 0 = true |- _ => apply Qeq_bool_eq in H
+                           | H : Qeq_bool _ 0 = false |- _ => apply Qeq_bool_neq in H end;
+      (split; [reflexivity|]); (split; [|split; [reflexivity|exact Hq]]); unfold adm_lim;
+      (split; [exact Hx|]); (split; [exact Hy|]); (split; [exact Hz|]); split; try lra; auto.
+  - intros (x & y & z & q & -> & (Hx & Hy & Hz & Hs & Zr) & -> & Hq).
+    cbn [length Nat.eqb andb forallb is_nonneg_num].
+    apply Qle_bool_iff in Hx, Hy, Hz. rewrite Hx, Hy, Hz. apply Qle_bool_iff in Hx, Hy, Hz.
+    assert (P : pos_ctor (PQ q) = Accept) by (apply pos_ctor_accept; eauto). cbn [andb].
+    unfold count_nonzero. cbn [filter is_zero_num].
+    destruct (Qeq_bool x 0) eqn:Ex, (Qeq_bool y 0) eqn:Ey, (Qeq_bool z 0) eqn:Ez; cbn [negb length Nat.eqb orb andb]; auto;
+      exfalso;
+      repeat match goal with H : Qeq_bool _ 0 = true |- _ => apply Qeq_bool_eq in H
+                           | H : Qeq_bool _ 0 = false |- _ => apply Qeq_bool_neq in H end.
+    + lra.
+    + destruct Zr as [K|[K|K]]; auto.
+Qed.
+(* F4 delimited: the sign-less test accepts exactly the documented domain plus limits with a negative or
+   non-finite entry *)
+Theorem slice_ctor_unsigned_spec lim pos :
+  slice_ctor lim pos = Accept <->
+  slice_ctor_unsigned lim pos = Accept /\ exists l, lim = LimSeq l /\ forallb is_nonneg_num l = true.
+Proof.
+  unfold slice_ctor, slice_ctor_unsigned. destruct lim as [l|]; [|split; [discriminate|intros [K _]; discriminate]].
+  destruct (Nat.eqb (length l) 3 && (Nat.eqb (count_nonzero l) 1 || Nat.eqb (count_nonzero l) 2)) eqn:E1; cbn [andb].
+  - destruct (forallb is_nonneg_num l) eqn:E2.
+    + split; [intros H; split; eauto|tauto].
+    + split; [discriminate|]. intros (_ & l' & [= <-] & K). congruence.
+  - split; [discriminate|intros [K _]; discriminate].
+Qed.
+
+(* reduced outputs for the extracted engine *)
+Definition dist_red (d : dist) : dist := mkD (Qred (dI d)) (Qred (dX d)) (Qred (dY d)) (Qred (dZ d)).
+Lemma dist_red_deq d : deq (dist_red d) d.
+Proof. unfold deq, dist_red; cbn. repeat split; apply Qred_correct. Qed.
+Definition vec_red (v : vec3) : vec3 := let '(x, y, z) := v in (Qred x, Qred y, Qred z).
+
+(* ------------------------------------------------------------------ *)
+(* verified checkers used by the tie: the implementation's floats, converted exactly to Q,
+   are tested against the property and against the exact model *)
+Definition tol_abs : Q := 1 # (2 ^ 50).          (* 2^-50 *)
+Definition tol_rel : Q := 1 # 1000000000.        (* 1e-9 *)
+Definition tol_tiny : Q := 1 # (2 ^ 1070).       (* subnormal floor *)
+Definition valid_dist (p : Q) (d : dist) : bool :=
+  Qle_bool 0 (dI d) && Qle_bool 0 (dX d) && Qle_bool 0 (dY d) && Qle_bool 0 (dZ d)
+  && Qle_bool (Qabs (total d - 1)) tol_abs && Qle_bool (Qabs (dI d - (1 - p))) tol_abs.
+Theorem valid_dist_sound p d : valid_dist p d = true ->
+  nonneg d /\ Qabs (total d - 1) <= tol_abs /\ Qabs (dI d - (1 - p)) <= tol_abs.
+Proof.
+  unfold valid_dist. rewrite !andb_true_iff. intros [[[[[A B] C] D] E] F].
+  apply Qle_bool_imp_le in A, B, C, D, E, F. unfold nonneg. tauto.
+Qed.
+Definition close_entry (p impl model : Q) : bool :=
+  Qle_bool (Qabs (impl - model)) (tol_rel * Qabs model + tol_abs * p + tol_tiny).
+Definition close_dist (p : Q) (impl model : dist) : bool :=
+  Qle_bool (Qabs (dI impl - dI model)) tol_abs
+  && close_entry p (dX impl) (dX model) && close_entry p (dY impl) (dY model) && close_entry p (dZ impl) (dZ model).
+Theorem close_dist_sound p impl model : close_dist p impl model = true ->
+  Qabs (dI impl - dI model) <= tol_abs /\
+  Qabs (dX impl - dX model) <= tol_rel * Qabs (dX model) + tol_abs * p + tol_tiny /\
+  Qabs (dY impl - dY model) <= tol_rel * Qabs (dY model) + tol_abs * p + tol_tiny /\
+  Qabs (dZ impl - dZ model) <= tol_rel * Qabs (dZ model) + tol_abs * p + tol_tiny.
+Proof.
+  unfold close_dist, close_entry. rewrite !andb_true_iff. intros [[[A B] C] D].
+  apply Qle_bool_imp_le in A, B, C, D. tauto.
+Qed.
